@@ -63,5 +63,41 @@ fn main() {
             println!("C19-REPLAY MISMATCH case=hidden option {} a visible one: hidden listed={}, visible listed={}", if heading { "sharing a help heading with" } else { "next to" }, p.contains("zzsecret"), p.contains("zzshown"));
         }
     }
-    println!("C19-REPLAY DONE {} cases", n + 4);
+    // the public per-section renderers never panic, whatever the command declares
+    let mut extra = 0;
+    for (ver, long) in [(false, false), (true, false), (false, true), (true, true)] {
+        let mk = move || {
+            let mut c = Command::new("vcmd");
+            if ver {
+                c = c.version("1.2.3");
+            }
+            if long {
+                c = c.long_version("1.2.3-long");
+            }
+            c
+        };
+        extra += 1;
+        let r = std::panic::catch_unwind(move || {
+            let man = clap_mangen::Man::new(mk());
+            let mut buf = Vec::new();
+            man.render_version_section(&mut buf).expect("io");
+            let mut all = Vec::new();
+            man.render(&mut all).expect("io");
+            (String::from_utf8_lossy(&buf).into_owned(), String::from_utf8_lossy(&all).into_owned())
+        });
+        match r {
+            Err(_) => println!("C19-REPLAY PANIC case=version={ver} long_version={long}: Man::render_version_section / Man::render panicked"),
+            Ok((sec, all)) => {
+                let want = if long { Some("1.2.3-long") } else if ver { Some("1.2.3") } else { None };
+                let ok = match want {
+                    Some(v) => sec.contains(v) && all.contains(v),
+                    None => !all.contains(".SH VERSION"),
+                };
+                if !ok {
+                    println!("C19-REPLAY MISMATCH case=version={ver} long_version={long}: version section {:?}", sec);
+                }
+            }
+        }
+    }
+    println!("C19-REPLAY DONE {} cases", n + 4 + extra);
 }
